@@ -167,11 +167,16 @@ class Motorway(M.Network):
     def downstream(self, node):
         return frozenset(id(w_) for w_ in self.G.successors(node)) if node in self.G else frozenset()
 
-    @invalidate_cache(ramps, downstream)
+    @lru_cache(maxsize=256)
+    def link_between(self, node_up, node_down):
+        G_ = self.G
+        return id(G_.edges[node_up, node_down]["link"]) if G_.has_edge(node_up, node_down) else None
+
+    @invalidate_cache(ramps, downstream, link_between)
     def add_link(self, node_up, link, node_down):
         return super().add_link(node_up, link, node_down)
 
-    @invalidate_cache(ramps, downstream)
+    @invalidate_cache(ramps, downstream, link_between)
     def add_links(self, links):
         return super().add_links(links)
 
@@ -402,3 +407,48 @@ class NominalLink(M.Link):
         ic.setdefault("rho", self.nominal_rho)
         ic.setdefault("v", self.nominal_v)
         super().init_vars(ic, engine, **kwargs)
+
+
+class GatedDestination(M.Destination):
+    """A destination kind that owns a control ACTION: the density its operator imposes downstream (`rho_gate`)."""
+
+    _vf_user = True
+    _actions = {"rho_gate"}
+
+    def init_vars(self, init_conditions=None, engine=None, **_):
+        if engine is None:
+            engine = get_current_engine()
+        ic = init_conditions or {}
+        self.actions = {"rho_gate": ic["rho_gate"] if "rho_gate" in ic else engine.var(f"rho_gate_{self.name}")}
+
+    def get_density(self, net, engine=None, **_):
+        if engine is None:
+            engine = get_current_engine()
+        link_up = self._get_entering_link(net)
+        return engine.destinations.get_congested_downstream_density(link_up.states["rho"][-1], self.actions["rho_gate"], link_up.rho_crit)
+
+
+class BoundaryCell(M.MainstreamOrigin):
+    """A mainstream origin modelled as a virtual upstream cell: besides its queue it owns an entry SPEED state `v_in` (the
+    upstream speed the first link sees), clamped when positive initial speeds are requested - an origin kind that owns a
+    quantity of the link family and honours the option that speaks about it."""
+
+    _vf_user = True
+    _states = {"w", "v_in"}
+
+    def init_vars(self, init_conditions=None, engine=None, positive_init_speed=False, **kwargs):
+        if engine is None:
+            engine = get_current_engine()
+        ic = dict(init_conditions or {})
+        v_in = ic.pop("v_in", None)
+        super().init_vars(ic, engine, **kwargs)
+        v_in = v_in if v_in is not None else engine.var(f"v_in_{self.name}")
+        self.states["v_in"] = engine.max(0, v_in) if positive_init_speed else v_in
+
+    def get_speed(self, net, **kwargs):
+        return self.states["v_in"]
+
+    def step_dynamics(self, net, *args, **kwargs):
+        nxt = super().step_dynamics(net, *args, **kwargs)
+        nxt["v_in"] = 0.5 * (self.states["v_in"] + 80.0)
+        return nxt
